@@ -8,6 +8,8 @@ import (
 )
 
 var concKeySets = [][]string{
+	{"/a", "/a/b"},
+	{"/a/b", "/a/b/c"},
 	{"/a/b", "/a/c"},
 	{"/a/b", "/a/{x}"},
 	{"/a", "/ab"},
@@ -15,21 +17,38 @@ var concKeySets = [][]string{
 	{"/a/*{w}", "/a/b"},
 }
 
-func concGenFor(r *Run, rng *rand.Rand, nWriters, nReaders int) *concGen {
+func concGenFor(r *Run, rng *rand.Rand, nWriters, nReaders, shapeIdx int) *concGen {
 	g := &concGen{Keys: concKeySets[rng.Intn(len(concKeySets))], Readers: nReaders, MaxReads: 1, Broken: "none"}
+	g.Init = []int{0, 0}
 	kinds := []string{"Handle", "Handle", "Update", "Delete"}
+	// writer 1: a transaction of two writes; its shape rotates with the seed
+	txnShapes := [][][2]any{
+		{{"Handle", 1}, {"Handle", 2}},
+		{{"Update", 1}, {"Handle", 2}}, // update a route, then write next to / below it
+		{{"Update", 1}, {"Update", 2}},
+		{{"Truncate", 1}, {"Handle", 2}},
+		{{"Delete", 1}, {"Handle", 1}},
+	}
+	shape := txnShapes[shapeIdx%len(txnShapes)]
+	if shape[0][0] == "Update" {
+		g.Keys = concKeySets[rng.Intn(2)] // a route and a route below it
+	}
+	if shape[0][0] != "Handle" {
+		g.Init = []int{91, 92} // routes registered before anybody starts
+		if shape[1][0] == "Handle" && shape[1][1] == 2 {
+			g.Init = []int{91, 0} // so that the second write of the transaction succeeds
+		}
+	}
 	for i := 0; i < nWriters; i++ {
 		var p concProg
 		switch i {
 		case 0:
-			// a transaction of two writes, committed
-			p = concProg{Single: false, Managed: rng.Intn(2) == 0, End: "commit",
-				Ops: [][2]any{{"Handle", 1}, {"Handle", 2}}}
+			p = concProg{Single: false, Managed: rng.Intn(2) == 0, End: "commit", Ops: shape}
 		case 1:
 			p = concProg{Single: true, End: "commit", Ops: [][2]any{{kinds[rng.Intn(len(kinds))], 1 + rng.Intn(2)}}}
 		default:
 			p = concProg{Single: false, Managed: rng.Intn(2) == 0, End: "abort",
-				Ops: [][2]any{{"Handle", 1 + rng.Intn(2)}}}
+				Ops: [][2]any{txnShapes[rng.Intn(len(txnShapes))][0]}}
 		}
 		g.Progs = append(g.Progs, p)
 	}
@@ -44,9 +63,14 @@ func concGenFor(r *Run, rng *rand.Rand, nWriters, nReaders int) *concGen {
 // C05 - concurrent use is race-free and linearizable.
 func checkC05(r *Run) {
 	rng := rand.New(rand.NewSource(r.Seed))
-	exploreConc(r, concGenFor(r, rng, 2, 1), "", pick(r, 5*time.Minute, 30*time.Minute))
+	// every transaction shape (two inserts; update then write below; two updates; truncate then insert;
+	// delete then re-insert) against a one-call writer and a reader, on key sets that share tree nodes
+	for i := 0; i < pick(r, 5, 15); i++ {
+		exploreConc(r, concGenFor(r, rng, 2, 1, i), "", pick(r, 5*time.Minute, 30*time.Minute))
+	}
+	exploreConc(r, concGenFor(r, rng, 3, 1, int(r.Seed)), "", pick(r, 5*time.Minute, 30*time.Minute))
 	if !r.quick() {
-		exploreConc(r, concGenFor(r, rng, 3, 1), "", 30*time.Minute)
+		exploreConc(r, concGenFor(r, rng, 3, 2, int(r.Seed)+1), "", 30*time.Minute)
 	}
 	r.assumption("interleavings are controlled at the verification points of the implementation; code between two points runs without interruption in the replay")
 }
@@ -54,6 +78,8 @@ func checkC05(r *Run) {
 // C06 - reads never wait for writers.
 func checkC06(r *Run) {
 	rng := rand.New(rand.NewSource(r.Seed + 6))
-	exploreConc(r, concGenFor(r, rng, 2, 1), "reader-wait", pick(r, 5*time.Minute, 30*time.Minute))
+	for i := 0; i < pick(r, 2, 6); i++ {
+		exploreConc(r, concGenFor(r, rng, 2, 1, i+int(r.Seed)), "reader-wait", pick(r, 5*time.Minute, 30*time.Minute))
+	}
 	r.assumption("a read that does not complete within 5 s while a writer is parked, and completes once the writer is released, is a wait")
 }
